@@ -760,9 +760,12 @@ func ruleV4c(c *Ctx) *RuleResult {
 						okStores, why = false, "nil stored at "+c.Pos(st.Pos())
 					}
 				default:
-					// copy of another callback field or of a parameter holding one
+					// copy of another callback field: that field must itself be non-nil (user callbacks are defaulted in Start)
 					if lf, _ := loadedField(v); lf != nil {
 						if _, isSig := lf.Type().Underlying().(*types.Signature); isSig {
+							if w := c.callbackChainWhy(lf, start, 0); w != "" {
+								okStores, why = false, "copied at "+c.Pos(st.Pos())+" from "+c.fieldName(lf)+": "+w
+							}
 							continue
 						}
 					}
@@ -850,3 +853,41 @@ func (c *Ctx) defaultedInStart(start *ssa.Function, f *types.Var) bool {
 }
 
 var _ = strings.Contains
+
+// callbackChainWhy follows a callback field through field-to-field copies back to its origin; returns "" when
+// every origin is a function value or a user callback that Client.Start defaults.
+func (c *Ctx) callbackChainWhy(f *types.Var, start *ssa.Function, depth int) string {
+	if depth > 8 {
+		return "copy chain too long"
+	}
+	if c.fieldOwner(f) == "Client" && f.Exported() {
+		if start != nil && c.defaultedInStart(start, f) {
+			return ""
+		}
+		return "Client." + f.Name() + " is not defaulted by Client.Start"
+	}
+	n := 0
+	for _, fn := range c.Funcs {
+		for _, st := range storesToField(c, fn, f) {
+			n++
+			switch v := stripConv(st.Val).(type) {
+			case *ssa.MakeClosure, *ssa.Function:
+			case *ssa.Parameter:
+			default:
+				if lf, _ := loadedField(v); lf != nil {
+					if _, isSig := lf.Type().Underlying().(*types.Signature); isSig {
+						if w := c.callbackChainWhy(lf, start, depth+1); w != "" {
+							return w
+						}
+						continue
+					}
+				}
+				return "assigned " + st.Val.String()
+			}
+		}
+	}
+	if n == 0 {
+		return c.fieldName(f) + " is never assigned"
+	}
+	return ""
+}
